@@ -581,7 +581,9 @@ def _eval_filter(ctx: Ctx, unit: FuncUnit, which: str, parent: FuncUnit, extra_c
     mgr_cls = ctx.manager_class()
     table = {}
     if which == 'filter_edge':
-        cases = {'plain edge': {}, 'kwarg edge': {'kwarg_name': 'x'}, 'flagged case_branch edge': {'case_branch': 'a', 'kwarg_name': None}}
+        cases = {'plain edge': {}, 'kwarg edge': {'kwarg_name': 'x'}, 'flagged case_branch edge': {'case_branch': 'a', 'kwarg_name': None},
+                 'flagged case_branch edge with a falsy label': {'case_branch': ''},
+                 'flagged case_branch edge labelled None': {'case_branch': None}}
     elif extra_case:
         cases = {'candidate consumed directly by another node (not started)': {'is_oneof_child': True}}
     else:
